@@ -1,0 +1,6 @@
+// Package simhook holds the seams used by the deterministic-simulation
+// harness that lives outside this repository. Every function is an empty
+// no-op unless the repository is built with the `verif` build tag, and even
+// then does nothing until a simulation installs a handler, so shipped
+// behaviour is unchanged.
+package simhook
